@@ -20,7 +20,7 @@ FILE_PROPS = {
     'src/util/time/validate.rs': ['C15'],
     'src/util/time/manipulate.rs': ['C04', 'C09'],
     'src/util/offset.rs': ['C10'],
-    'src/offset.rs': ['C10', 'C15'],
+    'src/offset.rs': ['C10', 'C15', 'C19'],
     'src/util/format.rs': ['C11'],
     'src/local/timezone.rs': ['C18', 'C19'],
     'src/local/transition_rule.rs': ['C18', 'C19'],
